@@ -19,7 +19,7 @@ import (
 func init() {
 	Register(&Scenario{
 		Prop: "C11", Run: scenarioC11, QuickRuns: 12000, ThoroughRuns: 1500000, Level: "exploration",
-		Rule:       "one run = a seeded evolving world (both executors); (a) history-dependent half: after construction and after every epoch Organism.Phenotype() of every organism is compared with the reference expression of that organism's *current* genome (a phenotype cached before the last mutation shows here), after a caller's own mutation followed by UpdatePhenotype(), and after an expressed organism object received another organism's binary form through UnmarshalBinary(); (b) genomes taken from the run, the shipped modular genome and generated modular genomes (modules sharing inputs, taking hidden nodes as inputs, feeding their output back as an input) are expressed and compared node by node, link by link (pointer-consistent incoming/outgoing lists), control node by control node, and through the whole gonum graph view over all ordered pairs of present ids plus absent ones. A case is one compared network; non-trivial when the genome has a disabled gene, a recurrent gene or a module; distinct by genome shape hash",
+		Rule:       "one run = a seeded evolving world (both executors); (a) history-dependent half: after construction and after every epoch Organism.Phenotype() of every organism is compared with the reference expression of that organism's *current* genome (a phenotype cached before the last mutation shows here), after a caller's own mutation followed by UpdatePhenotype(), after an expressed organism object received another organism's binary form through UnmarshalBinary(), and for a new organism made from a genome that was expressed and then changed; (b) genomes taken from the run, the shipped modular genome and generated modular genomes (modules sharing inputs, taking hidden nodes as inputs, feeding their output back as an input) are expressed and compared node by node, link by link (pointer-consistent incoming/outgoing lists), control node by control node, and through the whole gonum graph view over all ordered pairs of present ids plus absent ones. A case is one compared network; non-trivial when the genome has a disabled gene, a recurrent gene or a module; distinct by genome shape hash",
 		RealParts:  []string{"Genome.Genesis, Organism.Phenotype / phenotype caching, Network graph adapters (Node, Nodes, From, To, Edge, WeightedEdge, Weight, HasEdgeFromTo, HasEdgeBetween), NodeCount / LinkCount / Complexity", "the epochs and mutators that create and modify the organisms"},
 		StubParts:  []string{"fitness assignment", "goroutine choice in parallel worlds"},
 		Assumes:    []string{"where several enabled genes join the same ordered node pair (recurrent and non-recurrent variant) the graph view may report either link's weight"},
@@ -268,6 +268,65 @@ func scenarioC11(c *RunCtx) {
 				c.Steps++
 			}
 		}
+	}
+	// an organism made from a genome that was expressed and then changed: a caller keeps a genome, looks at its network
+	// (Genesis), applies its own mutation step and wraps the result in a new organism for evaluation. What that organism
+	// reports as its phenotype must express the genome it was given.
+	for k := t.Range("wrapChanged", 0, 2); k > 0 && len(w.Pop.Organisms) > 0; k-- {
+		oi := t.Draw("wrapChanged.org", len(w.Pop.Organisms))
+		var g *genetics.Genome
+		c.LibSoft("duplicate", func() { g, _ = genetics.VerifDuplicate(w.Pop.Organisms[oi].Genotype, 9000+k) })
+		if g == nil || len(g.Genes) == 0 {
+			continue
+		}
+		c.LibSoft("Genome.Genesis", func() { _, _ = g.Genesis(g.Id) })
+		kind := t.Draw("wrapChanged.kind", 3)
+		seedLib(int64(t.Draw("wrapChanged.libseed", 1<<31)))
+		what := ""
+		c.LibSoft("mutation before the organism is made", func() {
+			switch kind {
+			case 0:
+				gi := t.Draw("wrapChanged.gene", len(g.Genes))
+				g.Genes[gi].IsEnabled = !g.Genes[gi].IsEnabled
+				what = "one gene toggled"
+			case 1:
+				_, _ = genetics.VerifMutateLinkWeights(g, w.Opts.WeightMutPower, 1.0, false)
+				what = "link weights mutated"
+			case 2:
+				_, _ = genetics.VerifMutateAddNode(g, w.Pop, w.Pop, w.Opts)
+				what = "add-node"
+			}
+		})
+		var org *genetics.Organism
+		var oerr error
+		c.LibSoft("NewOrganism", func() { org, oerr = genetics.NewOrganism(1.0, g, w.Gen) })
+		if oerr != nil || org == nil {
+			continue
+		}
+		rec := Canon(g)
+		if len(rec.Genes) == 0 {
+			continue
+		}
+		enabled := 0
+		for _, gr := range rec.Genes {
+			if gr.En {
+				enabled++
+			}
+		}
+		if enabled == 0 {
+			continue // a genome without an enabled gene cannot be expressed
+		}
+		var net *network.Network
+		var err error
+		c.Lib("Organism.Phenotype", func() { net, err = org.Phenotype() })
+		if err != nil {
+			c.Fail("organism-phenotype-error", "Phenotype() of an organism made from a changed genome failed: %v\n%s", err, rec.Pretty())
+		}
+		if cl, d := RefExpress(rec).CompareNetwork(net); cl != "" {
+			c.Fail("organism-phenotype:"+cl, "a genome was expressed (Genesis), then changed (%s), then wrapped by NewOrganism; the organism's phenotype does not express the genome it holds: %s\n%s", what, d, rec.Pretty())
+		}
+		c.Count("probe.organism_made_from_changed_genome")
+		c.Steps++
 	}
 	// modular genomes
 	switch t.Pick("modular", 2, 1, 2) {
